@@ -1,5 +1,5 @@
-import AslModel.Lemmas.Isa.Common
-import AslModel.Model.Isa.I8080Z
+import AslModel.Props.C14
+import AslModel.Lemmas.Isa.I8080ZAll
 /-!
 # C14 — machine instructions encode as the target's instruction set defines: 8080/8085 written the Zilog way
 
@@ -12,12 +12,25 @@ Full-strength statements (as for the Intel syntax, `C14_8080_sound` / `C14_8080_
     C14_8080z_sound : encode excl cpu s = .ok bs → ∃ i, meaning excl s = some i ∧ I8080.decode cpu bs = some (i, bs.length)
     C14_8080z_range : legal excl cpu s = true ↔ isOk (encode excl cpu s) = true
 
-for **all** mnemonics and operand lists.  Proven here (`_partial`): these two statements for every statement that stores an
-immediate through a memory or register destination - `LD (HL),n`, `LD r,n` (all `n : Int`, both syntax modes, both CPUs) - i.e.
-the statements whose operand width depends on the `OpSize` state of `DecodeAdr_Z80`, plus the state lemma that only a 16-bit
-register operand changes `OpSize`.  The remaining mnemonics are covered by the correspondence test (`vlib/props/c14t_8080z.py`:
-every pair of operand kinds of every mnemonic, immediates and addresses around all limits) and by the SPEC run on the real
-output; what is missing for the full statement is the case analysis over the 8 × 8 operand kinds of the two-operand handlers.
+**Proved** for every statement `s` - all 32 mnemonics, every operand list (any length, register / pair / condition numbers
+inside and outside the names, every `Int` value of a number `n` or an address `(nn)`), both syntax modes, every CPU index -
+under the one hypothesis `canonical excl s = true` (`Spec/Isa/I8080Z.lean`): the names `C` and `M` are written as conditions
+exactly where a condition stands, and the statement is none of the five spellings that are neither Zilog's nor Intel's and
+about which the manuals say nothing (`SUB A,M` in the non-exclusive mode, `IN A,n`, `OUT n,A`, `IN (n)` / `OUT (n)` in the
+non-exclusive mode, `RST (n)`).  code85.c assembles these (verified on the real assembler, see `C14_8080z_hypothesis_needed`
+for the model); the SPEC has no 8080 spelling for them, so both statements are false there - the hypothesis is needed, and
+`C14_8080z_hypothesis_needed` proves it clause by clause.  The correspondence test generates only statements inside the
+hypothesis (the driver refuses to judge any other).
+
+How: `C14_8080z_intel` - the Z80-style handlers emit, for every statement, exactly the bytes the Intel-style handlers
+(`Model/Isa/I8080.lean`) emit for its 8080 spelling `intel excl s`, and refuse it when there is none or when an address `(nn)`
+is negative; the two theorems of the Intel syntax then carry over.  Proof of `C14_8080z_intel` (`Lemmas/Isa/I8080Z*.lean`):
+operands that are no name of their kind are refused by both sides (model: every primitive that reads an operand; SPEC: inversion
+of `intel`); statements without a value are finitely many (26 operands) and decided by evaluation; statements with a number
+or an address are proved with the value symbolic and the other operand enumerated.
+
+The earlier partial results (`_partial`: the statement form `LD (HL),n`, closed form `C14_8080z_ld_mem_imm`) and the `OpSize`
+state lemma are kept; they are now instances.
 -/
 namespace AslModel.C14
 open AslModel.PFile (Byte b b_toNat)
@@ -99,6 +112,104 @@ theorem C14_8080z_sound_partial (excl : Bool) (cpu : Nat) (v : Int) (bs : List B
       simp [AslModel.Spec.I8080.decode, AslModel.Spec.I8080.decode1, b_toNat, hb]
   · simp [hc] at h
 
+/-! ### all statements -/
+
+/-- **The Z80-style handlers are the Intel-style handlers on the 8080 spelling.**  Every statement inside the SPEC's scope is
+assembled to exactly the bytes which the Intel-syntax part of code85.c (the model of `C14_8080_sound` / `C14_8080_range`) emits
+for its 8080 spelling - `LD r,r'` as `MOV`, `LD r,n` as `MVI`, `LD dd,nn` as `LXI`, `ADD HL,ss` as `DAD`, `JP cc,nn` as `Jcc`,
+`RST 38h` as `RST 7` ... - and refused when it has no 8080 spelling, when the Intel statement is refused (operand out of
+range, `RIM`/`SIM` on the 8080), or when an address `(nn)` is negative. -/
+theorem C14_8080z_intel (excl : Bool) (cpu : Nat) (s : Src) (hc : canonical excl s = true) :
+    okBytes (I8080Z.encode excl cpu s) =
+      match intel excl s with
+      | some i => if s.args.all absOk then okBytes (AslModel.Isa.I8080.encode cpu i) else none
+      | none => none :=
+  encode_viaIntel excl cpu s hc
+
+/-- **Soundness**, every Z80-style statement: whenever the code generator emits bytes, the statement has an 8080 spelling and
+Intel's opcode matrix decodes exactly these bytes - and all of them - to the instruction that spelling denotes (mnemonic,
+register fields, 8/16-bit operand in two's complement, low byte first). -/
+theorem C14_8080z_sound (excl : Bool) (cpu : Nat) (s : Src) (bs : List Byte) (hc : canonical excl s = true)
+    (h : I8080Z.encode excl cpu s = .ok bs) :
+    ∃ i, meaning excl s = some i ∧ AslModel.Spec.I8080.decode cpu bs = some (i, bs.length) := by
+  have hv := C14_8080z_intel excl cpu s hc
+  rw [h] at hv
+  simp only [okBytes_ok] at hv
+  cases hi : intel excl s with
+  | none => rw [hi] at hv; cases hv
+  | some i =>
+    rw [hi] at hv
+    simp only at hv
+    split at hv
+    · cases he : AslModel.Isa.I8080.encode cpu i with
+      | error e => rw [he] at hv; cases hv
+      | ok bs' =>
+        rw [he] at hv
+        simp only [okBytes_ok, Option.some.injEq] at hv
+        subst hv
+        exact ⟨AslModel.Spec.I8080.meaning i, by simp [meaning, hi], C14_8080_sound cpu i bs he⟩
+    · cases hv
+
+/-- **Range**, every Z80-style statement: it is assembled iff the SPEC calls it legal - it has an 8080 spelling that is legal
+on the CPU (operand count and kinds; `n` in -128..255, `nn` in -32768..65535, ports 0..255, restart addresses 0, 8, .., 38h
+(and 0..7 in the non-exclusive mode); `LD A,IM` / `LD IM,A` only on the 8085) and every address `(nn)` is in 0..65535.
+One past a limit is refused, never truncated. -/
+theorem C14_8080z_range (excl : Bool) (cpu : Nat) (s : Src) (hc : canonical excl s = true) :
+    legal excl cpu s = true ↔ isOk (I8080Z.encode excl cpu s) = true := by
+  have hv := C14_8080z_intel excl cpu s hc
+  have hok : isOk (I8080Z.encode excl cpu s) = (okBytes (I8080Z.encode excl cpu s)).isSome := by
+    cases I8080Z.encode excl cpu s <;> rfl
+  rw [hok, hv]
+  unfold legal
+  cases hi : intel excl s with
+  | none => simp
+  | some i =>
+    simp only
+    have hr := C14_8080_range cpu i
+    by_cases ha : s.args.all absOk = true
+    · simp only [ha, Bool.and_true, if_true]
+      rw [hr]
+      cases AslModel.Isa.I8080.encode cpu i <;> rfl
+    · have ha' : s.args.all absOk = false := by simpa using ha
+      simp [ha']
+
+/-- **The hypothesis is needed** (and is exactly as wide as it has to be): for each clause of `canonical` a statement outside
+it that the model - like the real assembler: `sub a,m` → 96, `in a,5` → DB 05, `out 5,a` → D3 05, `in (5)` → DB 05,
+`rst (8)` → CF under `z80syntax on`; `rst (8)` → CF, `in a,5`, `out 5,a` as before under `exclusive` - assembles although
+the SPEC has no 8080 spelling for it, so that `C14_8080z_range` and `C14_8080z_sound` fail there.  The first five are
+spellings the manuals do not give; the last four are not statements of their own but second *values* of the texts `LD A,C`,
+`JP C,1234h`, `RET M`, `ADD M`, which `canonical` identifies with the first. -/
+theorem C14_8080z_hypothesis_needed :
+    (canonical false ⟨.SUB, [.r8 7, .r8 6]⟩ = false ∧ legal false 0 ⟨.SUB, [.r8 7, .r8 6]⟩ = false ∧
+      okBytes (I8080Z.encode false 0 ⟨.SUB, [.r8 7, .r8 6]⟩) = some [b 0x96]) ∧
+    (canonical true ⟨.IN, [.r8 7, .imm 5]⟩ = false ∧ legal true 0 ⟨.IN, [.r8 7, .imm 5]⟩ = false ∧
+      okBytes (I8080Z.encode true 0 ⟨.IN, [.r8 7, .imm 5]⟩) = some [b 0xdb, b 5]) ∧
+    (canonical true ⟨.OUT, [.imm 5, .r8 7]⟩ = false ∧ legal true 0 ⟨.OUT, [.imm 5, .r8 7]⟩ = false ∧
+      okBytes (I8080Z.encode true 0 ⟨.OUT, [.imm 5, .r8 7]⟩) = some [b 0xd3, b 5]) ∧
+    (canonical false ⟨.IN, [.abs 5]⟩ = false ∧ legal false 0 ⟨.IN, [.abs 5]⟩ = false ∧
+      okBytes (I8080Z.encode false 0 ⟨.IN, [.abs 5]⟩) = some [b 0xdb, b 5] ∧
+     canonical false ⟨.OUT, [.abs 5]⟩ = false ∧ legal false 0 ⟨.OUT, [.abs 5]⟩ = false ∧
+      okBytes (I8080Z.encode false 0 ⟨.OUT, [.abs 5]⟩) = some [b 0xd3, b 5]) ∧
+    (canonical true ⟨.RST, [.abs 8]⟩ = false ∧ legal true 0 ⟨.RST, [.abs 8]⟩ = false ∧
+      okBytes (I8080Z.encode true 0 ⟨.RST, [.abs 8]⟩) = some [b 0xcf]) ∧
+    (canonical true ⟨.LD, [.r8 7, .cond 3]⟩ = false ∧ legal true 0 ⟨.LD, [.r8 7, .cond 3]⟩ = false ∧
+      okBytes (I8080Z.encode true 0 ⟨.LD, [.r8 7, .cond 3]⟩) = some [b 0x79]) ∧
+    (canonical true ⟨.JP, [.r8 1, .imm 0x1234]⟩ = false ∧ legal true 0 ⟨.JP, [.r8 1, .imm 0x1234]⟩ = false ∧
+      okBytes (I8080Z.encode true 0 ⟨.JP, [.r8 1, .imm 0x1234]⟩) = some [b 0xda, b 0x34, b 0x12]) ∧
+    (canonical true ⟨.RET, [.r8 6]⟩ = false ∧ legal true 0 ⟨.RET, [.r8 6]⟩ = false ∧
+      okBytes (I8080Z.encode true 0 ⟨.RET, [.r8 6]⟩) = some [b 0xf8]) ∧
+    (canonical false ⟨.ADD, [.cond 7]⟩ = false ∧ legal false 0 ⟨.ADD, [.cond 7]⟩ = false ∧
+      okBytes (I8080Z.encode false 0 ⟨.ADD, [.cond 7]⟩) = some [b 0x86]) := by
+  decide
+
+/-- what `canonical` leaves alone in the exclusive mode: there `SUB A,M`, `IN (n)`, `OUT (n)` are refused by the code generator
+as by the SPEC, and the theorems cover them -/
+theorem C14_8080z_scope_exclusive :
+    canonical true ⟨.SUB, [.r8 7, .r8 6]⟩ = true ∧ isOk (I8080Z.encode true 0 ⟨.SUB, [.r8 7, .r8 6]⟩) = false ∧
+    canonical true ⟨.IN, [.abs 5]⟩ = true ∧ isOk (I8080Z.encode true 0 ⟨.IN, [.abs 5]⟩) = false ∧
+    canonical true ⟨.OUT, [.abs 5]⟩ = true ∧ isOk (I8080Z.encode true 0 ⟨.OUT, [.abs 5]⟩) = false := by
+  decide
+
 /-! ### non-vacuity -/
 
 example : okBytes (I8080Z.encode true 0 ⟨.LD, [.ind 2, .imm 255]⟩) = some [b 0x36, b 0xff] ∧
@@ -111,5 +222,21 @@ example : legal true 0 ⟨.LD, [.ind 2, .imm 255]⟩ = true ∧ legal true 0 ⟨
     legal true 0 ⟨.LD, [.ind 0, .r8 0]⟩ = false ∧ legal true 0 ⟨.LD, [.ind 0, .r8 7]⟩ = true ∧
     legal false 0 ⟨.CP, [.imm 0x1234]⟩ = true ∧ legal true 0 ⟨.CP, [.imm 0x1234]⟩ = false ∧
     legal true 0 ⟨.RST, [.imm 56]⟩ = true ∧ legal true 0 ⟨.RST, [.imm 7]⟩ = false ∧ legal false 0 ⟨.RST, [.imm 7]⟩ = true := by decide
+
+/-- the hypothesis of `C14_8080z_sound` / `C14_8080z_range` holds on statements of every kind: register forms, numbers at
+and one past a limit, addresses, conditions, the Intel readings of the non-exclusive mode, junk operands, wrong operand counts -/
+example : canonical true ⟨.LD, [.ind 2, .imm 255]⟩ = true ∧ canonical false ⟨.LD, [.r16 2, .abs 65535]⟩ = true ∧
+    canonical true ⟨.LD, [.r8 7, .r8 1]⟩ = true ∧ canonical true ⟨.JP, [.cond 3, .imm 0x1234]⟩ = true ∧
+    canonical false ⟨.CP, [.imm 0x1234]⟩ = true ∧ canonical false ⟨.RST, [.imm 7]⟩ = true ∧ canonical false ⟨.SUB, [.r8 6]⟩ = true ∧
+    canonical true ⟨.IN, [.r8 7, .abs 256]⟩ = true ∧ canonical true ⟨.LD, [.r8 9, .r16 7]⟩ = true ∧
+    canonical true ⟨.EX, [.r16 1, .r16 2, .af]⟩ = true ∧ canonical false ⟨.RET, [.cond 7]⟩ = true := by decide
+/-- ... and the conclusions are non-trivial there: bytes, meaning and decoding of an accepted statement -/
+example : okBytes (I8080Z.encode false 1 ⟨.LD, [.r16 2, .abs 65535]⟩) = some [b 0x2a, b 0xff, b 0xff] ∧
+    meaning false ⟨.LD, [.r16 2, .abs 65535]⟩ = some ⟨.LHLD, [65535]⟩ ∧
+    AslModel.Spec.I8080.decode 1 [b 0x2a, b 0xff, b 0xff] = some (⟨.LHLD, [65535]⟩, 3) ∧
+    legal false 1 ⟨.LD, [.r16 2, .abs 65535]⟩ = true ∧ legal false 1 ⟨.LD, [.r16 2, .abs 65536]⟩ = false ∧
+    legal false 1 ⟨.LD, [.r16 2, .abs (-1)]⟩ = false ∧ isOk (I8080Z.encode false 1 ⟨.LD, [.r16 2, .abs (-1)]⟩) = false ∧
+    legal true 0 ⟨.RST, [.imm 56]⟩ = true ∧ okBytes (I8080Z.encode true 0 ⟨.RST, [.imm 56]⟩) = some [b 0xff] ∧
+    legal true 0 ⟨.RST, [.imm 57]⟩ = false ∧ isOk (I8080Z.encode true 0 ⟨.RST, [.imm 57]⟩) = false := by decide
 
 end AslModel.C14
